@@ -25,8 +25,8 @@ def run(tier, seed):
     from webauthn.helpers.structs import AuthenticatorDataFlags
     def helper_sweep(vandalise):
         for f in range(256):
-            fl = AuthenticatorDataFlags(up=bool(f & 1), uv=bool(f & 4), be=bool(f & 8), bs=bool(f & 16), at=bool(f & 64), ed=bool(f & 128))
             try:
+                fl = AuthenticatorDataFlags(up=bool(f & 1), uv=bool(f & 4), be=bool(f & 8), bs=bool(f & 16), at=bool(f & 64), ed=bool(f & 128))
                 r = parse_backup_flags(fl)
                 got = (r.credential_device_type.value, bool(r.credential_backed_up))
                 ok = True
